@@ -153,10 +153,12 @@ func skipFile(ctx *build.Context, p string, skipTest bool) bool {
 			if knownArch[y] {
 				return y != ctx.GOARCH
 			}
-			return false
+			return knownOs[y] && y != ctx.GOOS
 		case knownOs[x] && knownArch[y]:
 			return true
 		case knownArch[y] && y != ctx.GOARCH:
+			return true
+		case knownOs[y] && y != ctx.GOOS:
 			return true
 		default:
 			return false
